@@ -669,12 +669,53 @@ func worker(sh *ev.Shard) {
 	sh.Done()
 }
 
+// nilReceivers: what a caller holds after ignoring a not-found / not-defined error is a nil *FieldData or a nil
+// *DecodeResult; every accessor on them reports an error (no value) and nothing panics.
+func nilReceivers(r *ev.Run) {
+	var fd *lazyproto.FieldData
+	var res *lazyproto.DecodeResult
+	call := func(name string, f func() error) {
+		var err error
+		var pan any
+		func() {
+			defer func() { pan = recover() }()
+			err = f()
+		}()
+		r.Evals(1)
+		switch {
+		case pan != nil:
+			r.Fail("nil-receiver/"+name+"/panic", name, map[string]any{"panic": fmt.Sprint(pan)})
+		case err == nil:
+			r.Fail("nil-receiver/"+name+"/no-error", name, nil)
+		}
+	}
+	for _, a := range lazyref.BuildAccessors() {
+		a := a
+		call("FieldData."+a.Name, func() error { _, err := a.ViaFD(fd); return err })
+		call("DecodeResult."+a.Name, func() error { _, err := a.ViaRes(res, 1); return err })
+	}
+	call("DecodeResult.GetFieldData", func() error { _, err := res.GetFieldData(1); return err })
+	call("DecodeResult.FieldData", func() error { _, err := res.FieldData(1, 2); return err })
+	call("DecodeResult.NestedResult", func() error { _, err := res.NestedResult(1); return err })
+	call("DecodeResult.NestedResults", func() error { _, err := res.NestedResults(1); return err })
+	func() {
+		defer func() {
+			if p := recover(); p != nil {
+				r.Fail("nil-receiver/Range-or-Close/panic", "Range/Close", map[string]any{"panic": fmt.Sprint(p)})
+			}
+		}()
+		res.Range(func(int, *lazyproto.FieldData) bool { return true })
+		_ = res.Close()
+	}()
+}
+
 func main() {
 	if sh := ev.ShardFromArgs(); sh != nil {
 		worker(sh)
 		return
 	}
 	r := ev.Start("C13", "exploration")
+	nilReceivers(r)
 	r.RunShards(32, runtime.NumCPU(), 8<<30)
 	r.Rule("deterministic product: message family = 3 tags x ~24 field shapes each (absent; varint x1/x2 incl. 32-bit overflow and sign-extended negatives; fixed32/64 x1/x2; LEN empty / string / repeated strings incl. empty / packed varint runs incl. empty run / packed fixed / nested messages to depth 2 (3 thorough) incl. the EMPTY nested message and repeated nested), assembled ascending and interleaved; definition family = 4 tags x 9 options (absent, flat, negative, 3 nested sub-definitions, nested+negative) = 6561 definitions; explored as (all messages x core definitions) U (core messages x all definitions) [quick: every 16th / 12th combination, thorough: all]; x {safe, fast} x {Decoder.Decode, Decode()} x 26 typed accessors via DecodeResult and via FieldData, GetFieldData, FieldData(path), NestedResult(s), Range. Plus all byte strings <= 4 (5) over a 16-symbol alphabet x 12 definitions (full oracle when the reference accepts them, otherwise no-panic). evaluations = lazyref.Accessor calls; distinct_nontrivial = lazyref.Accessor evaluations on a PRESENT field (reference produced a value or a typed error).")
 	r.Assume("each requested field number uses one wire type throughout (property's own precondition); messages mixing wire types are only in the no-panic set")
